@@ -51,11 +51,20 @@ int sqfs_xattr_writer_add_kv(sqfs_xattr_writer_t *xwr, const char *key,
 {
 	size_t i, key_index, old_value_index, value_index;
 	sqfs_u64 kv_pair;
+	const char *suffix;
 	char *value_str;
 	int err;
 
 	if (sqfs_get_xattr_prefix_id(key) < 0)
 		return SQFS_ERROR_UNSUPPORTED;
+
+	/* on disk, the key size behind the prefix is a 16 bit field */
+	suffix = strchr(key, '.');
+	if (suffix != NULL && strlen(suffix + 1) > 0x0FFFF)
+		return SQFS_ERROR_OVERFLOW;
+
+	if (sizeof(size_t) > sizeof(sqfs_u32) && size > 0x0FFFFFFFFUL)
+		return SQFS_ERROR_OVERFLOW;
 
 	err = str_table_get_index(&xwr->keys, key, &key_index);
 	if (err)
